@@ -17,7 +17,12 @@ oracle (real code alone; the expected values come from the GENERATOR's own groun
                          parallel block with two intersecting branches
        order_used        permuting the branches of every parallel block keeps used sets and acceptance
        order_state       … and every subcircuit's state vector (exact equality; Gaussian-dyadic matrices)
-       exceptions        no exception class other than JaqalError, no hang
+       exceptions        no exception class other than JaqalError, no hang (analysis, disjointness check, DiscoverSubcircuits, pipeline)
+       emulator_exceptions   the same for run_jaqal_circuit on accepted programs (reported separately: not C13's subject)
+       gate_with_repeated_qubit_is_jaqalerror   one gate given the same qubit twice (directly / through aliases / through macro
+                         arguments) makes run_jaqal_circuit, the validate_parallel visitor and DiscoverSubcircuits raise
+                         JaqalError("Gate … acting on the same qubit more than once.")
+The rejection oracles compare WHICH rejection comes first in visit order ("P" parallel branches / "G" repeated qubit in a gate).
 """
 import os, sys, json, random, signal, subprocess, argparse, itertools, warnings
 
@@ -27,6 +32,23 @@ if "/verif" not in sys.path:
 
 DEFAULT_DRIVER = "/verif/lean/.lake/build/bin/jaqal-model"
 PAR_MSG = "Parallel branches of block acting on the same qubit."
+GATE_MSG_TAIL = "acting on the same qubit more than once."
+
+
+def rule_of(msg):
+    """message of a JaqalError -> the model's rule tag (only the two C13 rejections are told apart)"""
+    if msg == PAR_MSG:
+        return "parallel-branches-same-qubit"
+    if msg.endswith(GATE_MSG_TAIL):
+        return "gate-same-qubit-twice"
+    return "other"
+
+
+def first_of(val, msg):
+    """("ok"|{"err":..}, message) -> None (accepted) | "P" | "G" | "other" """
+    if val == "ok":
+        return None
+    return {"parallel-branches-same-qubit": "P", "gate-same-qubit-twice": "G"}.get(rule_of(msg), "other")
 
 _LIB = {}
 
@@ -209,16 +231,23 @@ class Gen:
         rng = self.rng
         k = rng.random()
 
+        used_params = set()
+
         def qarg(avoid=()):
             if scope and rng.random() < 0.6:
-                p, kind = rng.choice(scope)
-                if kind == "q":
-                    return ("p", p)
-                i = rng.randrange(2)
-                return ("pi", p, i)
+                # a macro parameter, not one already given to this gate (mostly)
+                cands = [(p, kind) for p, kind in scope if p not in used_params or rng.random() < 0.1]
+                if cands:
+                    p, kind = rng.choice(cands)
+                    used_params.add(p)
+                    if kind == "q":
+                        return ("p", p)
+                    i = rng.randrange(2)
+                    return ("pi", p, i)
             if pool and rng.random() < 0.93:
-                p2 = [q for q in pool if q not in avoid] or pool
-                return self.qubit(fq=rng.choice(p2))
+                p2 = [q for q in pool if q not in avoid]
+                if p2:
+                    return self.qubit(fq=rng.choice(p2))
             return self.qubit(avoid=avoid)
 
         if self.mode == "anon":
@@ -260,6 +289,9 @@ class Gen:
         if k < 0.95:
             a = qarg()
             b = qarg(avoid=(a[2],) if a[0] == "q" else ())
+            if rng.random() < 0.04:
+                b = a  # now and then the same qubit twice on purpose
+                self.hit("repeated_qubit_on_purpose")
             return ("gate", rng.choice(TWO), [a, b])
         # distinct qubits where the argument is not a macro parameter (a repeated qubit makes the emulator's
         # matrix non-unitary: RuntimeError "Error in probabilities" - not C13's business)
@@ -275,11 +307,11 @@ class Gen:
         args = []
         for kind in kinds:
             if kind == "q":
-                qs = [p for p, kk in scope if kk == "q"]
+                qs = [p for p, kk in scope if kk == "q" and ("p", p) not in args]
                 if qs and rng.random() < 0.7:
                     args.append(("p", rng.choice(qs)))
                 else:
-                    args.append(self.qubit())
+                    args.append(self.qubit(avoid=tuple(a[2] for a in args if a[0] == "q")))
             else:
                 rs = [p for p, kk in scope if kk == "r"]
                 if rs and rng.random() < 0.7:
@@ -429,9 +461,10 @@ def ev_arg(a, env):
     raise ValueError(a)
 
 
-def truth(g, s, env, allq, conflicts):
-    """the set of fundamental qubits some gate reachable from s acts on; appends to `conflicts` for every parallel
-    block (reached through macro expansion) with two intersecting branches"""
+def truth(g, s, env, allq, events):
+    """the set of fundamental qubits some gate reachable from s acts on. `events` receives, in the visitor's visit order,
+    "G" for every native gate statement two of whose used-qubit arguments share a qubit and "P" for every branch of a
+    parallel block (reached through macro expansion) that shares a qubit with an earlier branch of the same block."""
     t = s[0]
     if t == "gate":
         pos = gate_positions(g.mode, s[1], len(s[2]))
@@ -440,32 +473,30 @@ def truth(g, s, env, allq, conflicts):
         out = set()
         for j in pos:
             v = ev_arg(s[2][j], env)
-            if v[0] == "q":
-                out.add(v[1])
-            elif v[0] == "r":
-                out.update(v[1])
+            cur = {v[1]} if v[0] == "q" else set(v[1]) if v[0] == "r" else set()
+            if out & cur:
+                events.append("G")
+            out |= cur
         return out
     if t == "call":
         m = next(m for m in g.macros if m[0] == s[1])
         env2 = {p: ev_arg(a, env) for p, a in zip(m[1], s[2])}
         out = set()
         for x in m[3]:
-            out |= truth(g, x, env2, allq, conflicts)
+            out |= truth(g, x, env2, allq, events)
         return out
     if t == "seq" or t == "loop":
         out = set()
         for x in s[-1]:
-            out |= truth(g, x, env, allq, conflicts)
+            out |= truth(g, x, env, allq, events)
         return out
     if t == "par":
-        sets = [truth(g, x, env, allq, conflicts) for x in s[1]]
-        for i, j in itertools.combinations(range(len(sets)), 2):
-            if sets[i] & sets[j]:
-                conflicts.append(1)
-                break
         out = set()
-        for x in sets:
-            out |= x
+        for x in s[1]:
+            cur = truth(g, x, env, allq, events)
+            if out & cur:
+                events.append("P")
+            out |= cur
         return out
     raise ValueError(s)
 
@@ -562,6 +593,8 @@ def impl_parallel(c):
     r = guarded(lambda: L["VP"]().visit(c))
     if r[0] == "ok":
         return "ok", ""
+    if r[1] == "JaqalError":
+        return {"err": r[1], "rule": rule_of(r[2])}, r[2]
     return {"err": r[1]}, r[2]
 
 
@@ -592,6 +625,9 @@ def model_norm(out):
     """driver output -> comparable with impl_*"""
     if isinstance(out, dict) and "ok" in out:
         return {"ok": {k: [int(x) for x in v] for k, v in out["ok"].items()}}
+    if isinstance(out, dict) and "rule" in out:
+        r = out["rule"]
+        return {"err": out["err"], "rule": r if r in ("parallel-branches-same-qubit", "gate-same-qubit-twice") else "other"}
     return out
 
 
@@ -619,10 +655,10 @@ def make_case(seed, idx):
     g = Gen(rng, mode).build()
     text = render(g)
     allq = g.all_fq()
-    conflicts = []
+    events = []
     tr = set()
     for s in g.body:
-        tr |= truth(g, s, {}, allq, conflicts)
+        tr |= truth(g, s, {}, allq, events)
     if g.mode == "anon":
         pass  # prepare_all / measure_all are anonymous parameterless gates there: nothing used
     addrs = addresses(g.body)
@@ -643,10 +679,87 @@ def make_case(seed, idx):
         "mode": mode,
         "text": text,
         "perm_text": ptext,
-        "expect": {"used": as_used(tr), "conflict": bool(conflicts), "stmts": stmts},
+        "expect": {"used": as_used(tr), "conflict": "P" in events, "repeat": "G" in events,
+                   "first": events[0] if events else None, "stmts": stmts},
         "letsized": g.letsized,
     }
     return case, g.feat
+
+
+# hand-written boundary programs (no ground truth: model correspondence + exception classes only)
+EDGE = [
+    ("typed", "let n -1\nregister r[3]\nprepare_all\nX r[n]\nmeasure_all\n"),
+    ("typed", "let n 3\nregister r[3]\nprepare_all\nX r[n]\nmeasure_all\n"),
+    ("typed", "let n 0\nregister r[n]\nprepare_all\nmeasure_all\n"),
+    ("typed", "let n 3\nregister r[n]\nprepare_all\nRG r\nmeasure_all\n"),
+    ("typed", "let n 3\nregister r[n]\nmap a r\nprepare_all\nRG a\nmeasure_all\n"),
+    ("typed", "register r[4]\nmap a r[3:0:-1]\nprepare_all\nX a[0]\nRG a\nmeasure_all\n"),
+    ("typed", "let m -1\nregister r[4]\nmap a r[3:0:m]\nprepare_all\nX a[0]\nX a[2]\nRG a\nmeasure_all\n"),
+    ("typed", "register r[4]\nmap a r[1:4:2]\nmap b a[1:2]\nmap c b[0]\nprepare_all\n< X c | X r[3] >\nmeasure_all\n"),
+    ("typed", "register r[3]\nmacro foo a b { X a; X b }\nmacro bar b a { foo a b; < X a | X b > }\nprepare_all\nbar r[0] r[1]\nmeasure_all\n"),
+    ("typed", "register r[3]\nmacro foo a b { X a; X b }\nmacro bar b a { foo a b; < X a | X b > }\nprepare_all\nbar r[1] r[1]\nmeasure_all\n"),
+    ("typed", "register r[3]\nmacro foo a { X a }\nmacro bar a { foo a }\nmacro baz a { bar a }\nprepare_all\n< baz r[0] | foo r[0] >\nmeasure_all\n"),
+    ("typed", "register r[3]\nmacro foo a { X a[1] }\nmacro bar a { foo a; X a[0] }\nprepare_all\n< bar r | X r[2] >\nmeasure_all\n"),
+    ("typed", "register r[3]\nmacro foo a { X a[3] }\nprepare_all\nfoo r\nmeasure_all\n"),
+    ("typed", "register r[3]\nmacro foo a k { P a k }\nprepare_all\nfoo r[0] 2\nmeasure_all\n"),
+    ("typed", "register r[3]\nprepare_all\n< prepare_all | X r[0] >\nmeasure_all\n"),
+    ("typed", "register r[3]\nprepare_all\n< I_X r[0] | X r[0] | N r[1] | I_CX r[0] r[1] >\nmeasure_all\n"),
+    ("typed", "register r[3]\nprepare_all\nCX r[0] r[0]\n< CX r[1] r[1] | X r[0] >\nmeasure_all\n"),
+    ("typed", "register r[3]\nprepare_all\nloop 0 { < X r[0] | X r[0] > }\nmeasure_all\n"),
+    ("anon", "register r[3]\nprepare_all\nfoo 1 r[2] 3.5\n< foo 2 r[2] 1 | bar r[1] | baz 1 2 >\nmeasure_all\n"),
+    ("anon", "let k 2\nregister r[3]\nprepare_all\n< foo k | foo r[k] >\nmeasure_all\n"),
+    ("anon", "register r[3]\nmacro m a { foo a 1 }\nprepare_all\n< m r[0] | m 3 | foo r[0] 2 >\nmeasure_all\n"),
+]
+
+
+def edge_cases():
+    return [{"id": f"edge{i}", "mode": m, "text": t, "perm_text": t, "expect": None, "letsized": "r[n]" in t}
+            for i, (m, t) in enumerate(EDGE)]
+
+
+def repeat_cases(seed, k):
+    """programs in which ONE gate statement is given the same fundamental qubit twice - directly, through aliases, through
+    macro arguments (qubit and register parameters, nested macros) - inside an otherwise valid prepare_all … measure_all program.
+    Oracle `gate_with_repeated_qubit_is_jaqalerror`: run_jaqal_circuit (and DiscoverSubcircuits on the raw circuit) must raise
+    JaqalError("Gate … acting on the same qubit more than once.")."""
+    out = []
+    for idx in range(k):
+        rng = random.Random(f"{seed}:rep:{idx}")
+        n = rng.choice([3, 4, 5])
+        i = rng.randrange(n)
+        o = rng.choice([x for x in range(n) if x != i])
+        lo = rng.randint(0, i)
+        hdr = [f"let n {n}", f"let k {i}", f"register r[{n}]" if rng.random() < 0.7 else "register r[n]",
+               f"map a r[{lo}:{n}]", f"map b a[{i - lo}]", "map c r"]
+        refs = [f"r[{i}]", f"a[{i - lo}]", "b", f"c[{i}]", "r[k]", "c[k]"]
+        x, y = rng.sample(refs, 2) if rng.random() < 0.8 else (refs[0], refs[0])
+        kind = rng.choice(["direct", "macro_q", "macro_nested", "macro_reg", "three", "in_parallel", "in_loop"])
+        g2 = rng.choice(TWO)
+        macros, stmt = [], None
+        if kind == "direct":
+            stmt = f"{g2} {x} {y}"
+        elif kind == "macro_q":
+            macros = [f"macro mm x y {{ {g2} x y }}"]
+            stmt = f"mm {x} {y}"
+        elif kind == "macro_nested":
+            macros = [f"macro mm x y {{ {g2} y x }}", f"macro m2 x {{ X r[{o}]; mm x {y} }}"]
+            stmt = f"m2 {x}"
+        elif kind == "macro_reg":
+            macros = [f"macro m3 g {{ {g2} g[{i - lo}] {y} }}"]
+            stmt = "m3 a"
+        elif kind == "three":
+            g3 = rng.choice(THREE)
+            args = [x, f"r[{o}]", y]
+            rng.shuffle(args)
+            stmt = f"{g3} " + " ".join(args)
+        elif kind == "in_parallel":
+            stmt = f"< X r[{o}] | {{ {g2} {x} {y} }} >"
+        else:
+            stmt = f"loop 2 {{ {g2} {x} {y} }}"
+        text = "\n".join(hdr + macros + ["prepare_all", f"X r[{o}]", stmt, "measure_all"]) + "\n"
+        out.append({"id": f"rep{idx}", "seed": seed, "mode": "typed", "text": text, "perm_text": text, "expect": None,
+                    "letsized": "r[n]" in text, "repeat_oracle": kind})
+    return out
 
 
 def _bump(d, k, n=1):
@@ -661,7 +774,7 @@ def evaluate(cases, driver, want_state=True):
             ["used_qubits", "used_qubits_stmt", "parallel_check", "used_qubits_pipeline", "parallel_check_pipeline"]}
     orc = {k: {"cases": 0, "failures": []} for k in
            ["used_exact", "used_exact_stmt", "used_exact_pipeline", "reject_iff", "reject_iff_discover", "order_used",
-            "order_state", "exceptions"]}
+            "order_state", "exceptions", "emulator_exceptions", "gate_with_repeated_qubit_is_jaqalerror"]}
     dist = {}
     reqs = []   # (op key, case, request, impl value)
 
@@ -698,11 +811,12 @@ def evaluate(cases, driver, want_state=True):
         iu = impl_used(c)
         check_exc(case, "used", iu)
         reqs.append(("used_qubits", case, {"op": "used_qubits", "circuit": cj}, iu))
-        orc["used_exact"]["cases"] += 1
-        if iu != {"ok": exp["used"]}:
-            fail("used_exact", case, f"impl {iu} expected {exp['used']}")
+        if exp:
+            orc["used_exact"]["cases"] += 1
+            if iu != {"ok": exp["used"]}:
+                fail("used_exact", case, f"impl {iu} expected {exp['used']}")
         # --- statement level
-        for st in exp["stmts"]:
+        for st in (exp["stmts"] if exp else []):
             ius = impl_used_stmt(c, st["path"])
             check_exc(case, "used_stmt", ius)
             reqs.append(("used_qubits_stmt", dict(case, path=st["path"]),
@@ -714,18 +828,29 @@ def evaluate(cases, driver, want_state=True):
         ip, msg = impl_parallel(c)
         check_exc(case, "parallel", ip)
         reqs.append(("parallel_check", case, {"op": "parallel_check", "circuit": cj}, ip))
-        rejected = (ip != "ok" and msg == PAR_MSG)
-        orc["reject_iff"]["cases"] += 1
-        _bump(dist, "rejected" if rejected else ("accepted" if ip == "ok" else "other_error"))
-        if rejected != exp["conflict"] or (ip != "ok" and not rejected):
-            fail("reject_iff", case, f"impl {ip} {msg!r}; ground truth conflict={exp['conflict']}")
+        fst = first_of(ip, msg)
+        _bump(dist, {None: "accepted", "P": "rejected_parallel", "G": "rejected_gate"}.get(fst, "other_error"))
+        if exp:
+            orc["reject_iff"]["cases"] += 1
+            if fst != exp["first"]:
+                fail("reject_iff", case, f"impl {ip} {msg!r}; ground truth first rejection={exp['first']} "
+                                         f"(conflict={exp['conflict']}, repeated qubit in a gate={exp['repeat']})")
         idv, dmsg = impl_discover(c)
         check_exc(case, "discover_raw", idv)
-        if not (isinstance(idv, dict) and idv["err"] != "JaqalError"):
+        if exp and not (isinstance(idv, dict) and idv["err"] != "JaqalError"):
             orc["reject_iff_discover"]["cases"] += 1
-            drej = (idv != "ok" and dmsg == PAR_MSG)
-            if drej != exp["conflict"] or (idv != "ok" and not drej):
-                fail("reject_iff_discover", case, f"DiscoverSubcircuits {idv} {dmsg!r}; conflict={exp['conflict']}")
+            if first_of(idv, dmsg) != exp["first"]:
+                fail("reject_iff_discover", case, f"DiscoverSubcircuits {idv} {dmsg!r}; first rejection={exp['first']}")
+        if case.get("repeat_oracle"):
+            orc["gate_with_repeated_qubit_is_jaqalerror"]["cases"] += 1
+            _bump(dist, "repeat:" + case["repeat_oracle"])
+            sv = state_vectors(c)
+            ok_run = sv[0] == "err" and sv[1] == "JaqalError" and sv[2].endswith(GATE_MSG_TAIL)
+            ok_disc = first_of(idv, dmsg) == "G" or (isinstance(idv, dict) and idv["err"] != "JaqalError")
+            if not ok_run or first_of(ip, msg) != "G" or not ok_disc:
+                fail("gate_with_repeated_qubit_is_jaqalerror", case,
+                     f"run_jaqal_circuit {sv[:3] if sv[0] == 'err' else 'returned a result'}; validate_parallel visitor {ip} {msg!r}; "
+                     f"DiscoverSubcircuits(raw) {idv} {dmsg!r}")
         # --- pipeline result
         pp = guarded(lambda: pipeline(c))
         if pp[0] != "ok":
@@ -739,22 +864,25 @@ def evaluate(cases, driver, want_state=True):
                 cj2 = None
             iu2 = impl_used(c2)
             check_exc(case, "used_pipeline", iu2)
-            orc["used_exact_pipeline"]["cases"] += 1
-            if iu2 != {"ok": exp["used"]}:
-                fail("used_exact_pipeline", case, f"impl {iu2} expected {exp['used']}")
+            if exp:
+                orc["used_exact_pipeline"]["cases"] += 1
+                if iu2 != {"ok": exp["used"]}:
+                    fail("used_exact_pipeline", case, f"impl {iu2} expected {exp['used']}")
             id2, dmsg2 = impl_discover(c2)
             check_exc(case, "discover_pipeline", id2)
-            orc["reject_iff_discover"]["cases"] += 1
-            drej2 = (id2 != "ok" and dmsg2 == PAR_MSG)
-            if drej2 != exp["conflict"] or (id2 != "ok" and not drej2):
-                fail("reject_iff_discover", case, f"pipeline: DiscoverSubcircuits {id2} {dmsg2!r}; conflict={exp['conflict']}")
+            if exp:
+                orc["reject_iff_discover"]["cases"] += 1
+            if exp and first_of(id2, dmsg2) != exp["first"]:
+                fail("reject_iff_discover", case, f"pipeline: DiscoverSubcircuits {id2} {dmsg2!r}; first rejection={exp['first']}")
             if cj2 is not None:
                 reqs.append(("used_qubits_pipeline", case, {"op": "used_qubits", "circuit": cj2}, iu2))
                 ip2, _ = impl_parallel(c2)
                 reqs.append(("parallel_check_pipeline", case, {"op": "parallel_check", "circuit": cj2}, ip2))
         # --- branch order
-        qr = guarded(lambda: parse(case["perm_text"], case["mode"]))
-        if qr[0] == "ok":
+        qr = guarded(lambda: parse(case["perm_text"], case["mode"])) if exp else ("skip",)
+        if qr[0] == "skip":
+            pass
+        elif qr[0] == "ok":
             cp = qr[1]
             orc["order_used"]["cases"] += 1
             iup = impl_used(cp)
@@ -775,8 +903,11 @@ def evaluate(cases, driver, want_state=True):
                     _bump(dist, "emulator_error:" + sv1[1])
                     if sv1[1] != sv2[1]:
                         fail("order_state", case, f"errors differ {sv1[1:]} {sv2[1:]}")
+                    orc["emulator_exceptions"]["cases"] += 1
                     if sv1[1] != "JaqalError":
-                        fail("exceptions", case, f"run_jaqal_circuit: {sv1[1]} {sv1[2][:200]}")
+                        # e.g. one gate given the same qubit twice (`HH r[4] r[4]`, accepted by the used-qubit
+                        # analysis): RuntimeError "Error in probabilities" - the emulator's business (C03/C16), not C13's
+                        fail("emulator_exceptions", case, f"run_jaqal_circuit: {sv1[1]} {sv1[2][:200]}")
         else:
             fail("order_used", case, f"permuted program does not parse: {qr[1:]}")
 
@@ -809,7 +940,8 @@ def run(seed: int, n: int, driver: str = DEFAULT_DRIVER, thorough: bool = False)
             _bump(feats, "gen:" + k, 1)
     if driver and not os.path.exists(driver):
         driver = None
-    corr, orc, dist = evaluate(cases, driver)
+    cases_all = cases + edge_cases() + repeat_cases(seed, max(20, n // 5))
+    corr, orc, dist = evaluate(cases_all, driver)
     dist.update(feats)
     if driver is None:
         dist["driver_missing"] = 1
